@@ -473,7 +473,8 @@ def check_C17(tier):
     n, md = (3, 1) if q else (3, 2)
     c.mc("Container", "MC_C17.cfg", dict(N=n, MaxDamage=md, Deviations="{}", Emit="Emit"), timeout=1500, case_file=cp,
          label="writer -> damage -> reader machines: RoundTrip, FailClosed, NeverPartial")
-    for dev, inv in [("CarB64BytesNoDecode", "RoundTrip"), ("NoIntegrityCheck", "FailClosed"), ("AddTokenNoVerify", "FailClosed")]:
+    for dev, inv in [("CarB64BytesNoDecode", "RoundTrip"), ("NoIntegrityCheck", "FailClosed"), ("AddTokenNoVerify", "FailClosed"),
+                     ("IdentityCidTrusted", "FailClosed"), ("BytesAliased", "RoundTrip")]:
         c.mc("Container", "MC_C17.cfg", dict(N=2, MaxDamage=1, Deviations='{"%s"}' % dev, Emit=""), expect_violation=[inv, "NeverPartial"],
              label="sensitivity: " + dev)
     c.replay("container", cp, rule="%d real tokens (delegations and invocations, mixed algorithms) in every insertion order x 4 formats x "
